@@ -6,11 +6,28 @@
 #include "replay.hpp"
 #include <opm/input/eclipse/Deck/DeckItem.hpp>
 #include <opm/input/eclipse/Deck/DeckOutput.hpp>
+#include <opm/input/eclipse/Deck/Deck.hpp>
+#include <opm/input/eclipse/Deck/DeckKeyword.hpp>
+#include <opm/input/eclipse/Deck/DeckRecord.hpp>
+#include <opm/input/eclipse/Parser/Parser.hpp>
 #include <sstream>
 #include <vector>
+// the lemma open_ended_item_keeps_its_trailing_defaults: a data array whose last entries are defaulted is parsed, printed and
+// parsed again through the real parser: it must keep its number of entries
+static int openEnded(const Replay& r)
+{
+    try {
+        const auto d1 = Opm::Parser{}.parseString("RUNSPEC\nDIMENS\n 3 3 1 /\nGRID\nMULTPV\n 4*2.0 5* /\n");
+        std::ostringstream os; os << d1;
+        const auto d2 = Opm::Parser{}.parseString(os.str());
+        const auto n1 = d1["MULTPV"].back().getRecord(0).getItem(0).data_size(), n2 = d2["MULTPV"].back().getRecord(0).getItem(0).data_size();
+        return r.verdict(n1 == n2, "MULTPV 4*2.0 5* / has " + std::to_string(n1) + " entries, after print and re-parse " + std::to_string(n2) + " (the trailing defaults are dropped when the record ends)");
+    } catch (const std::exception& e) { return r.verdict(false, std::string("print / re-parse of the data array raises: ") + std::string(e.what()).substr(0, 140)); }
+}
 int main(int argc, char** argv)
 {
     Replay r(argc, argv);
+    if (r.is("open_ended_item")) return openEnded(r);
     std::ostringstream w;
     for (int len = 1; len <= 6; ++len)
         for (unsigned mask = 0; mask < (1u << len); ++mask) {
